@@ -197,8 +197,14 @@ class Gen:
             return "%s / %s" % (l1, l2), self.expect("Number", None, res)
         if kind == "variable":
             l1, v1 = self.money_lit(a)
-            text = "price = %s\nprice %s %s" % (l1, rng.choice(self.words), self.name_after(b))
-            e = self.expect("Money", b, self.conv(table, v1, a, b), scale=abs(v1))
+            if rng.random() < 0.4:
+                # the bound amount is no whole number of minor units (a third, a seventh): it is converted exactly
+                k = rng.choice([3, 7, 9, 11])
+                text = "price = %s / %d\nprice %s %s" % (l1, k, rng.choice(self.words), self.name_after(b))
+                e = self.expect("Money", b, self.conv(table, v1 / k, a, b), scale=abs(v1))
+            else:
+                text = "price = %s\nprice %s %s" % (l1, rng.choice(self.words), self.name_after(b))
+                e = self.expect("Money", b, self.conv(table, v1, a, b), scale=abs(v1))
             e["line"] = 1
             return text, e
         raise ValueError(kind)
